@@ -182,6 +182,41 @@ def _guard_continue_normal_form(body):
     return body
 
 
+def desugar_quantifiers(fn):
+    """View transformation: any((a, b, c)) / any([a, b, c]) over a literal display used as a *condition* is  a or b or c ; all(...) is  a and b and c
+    (same truth value; only conditions are rewritten, where nothing but the truth value is observed).  max(x, <positive literal>) used as an assigned
+    value is left alone."""
+    n = 0
+    for node in list(ast.walk(fn)):
+        tests = []
+        if isinstance(node, (ast.If, ast.While, ast.IfExp, ast.Assert)):
+            tests.append((node, "test"))
+        if isinstance(node, ast.UnaryOp) and isinstance(node.op, ast.Not):
+            tests.append((node, "operand"))
+        for holder, fld in tests:
+            e = getattr(holder, fld)
+            if isinstance(e, ast.Call) and isinstance(e.func, ast.Name) and e.func.id in ("any", "all") and len(e.args) == 1 and not e.keywords \
+                    and isinstance(e.args[0], (ast.Tuple, ast.List)) and len(e.args[0].elts) >= 2 and not any(isinstance(x, ast.Starred) for x in e.args[0].elts):
+                b = ast.BoolOp(op=ast.Or() if e.func.id == "any" else ast.And(), values=list(e.args[0].elts))
+                ast.copy_location(b, e)
+                setattr(holder, fld, b)
+                n += 1
+        if isinstance(node, ast.BoolOp):
+            for i, e in enumerate(node.values):
+                if isinstance(e, ast.Call) and isinstance(e.func, ast.Name) and e.func.id in ("any", "all") and len(e.args) == 1 and not e.keywords \
+                        and isinstance(e.args[0], (ast.Tuple, ast.List)) and len(e.args[0].elts) >= 2:
+                    holder_is_cond = True
+                    b = ast.BoolOp(op=ast.Or() if e.func.id == "any" else ast.And(), values=list(e.args[0].elts))
+                    ast.copy_location(b, e)
+                    node.values[i] = b
+                    n += 1
+    if n:
+        from .model import set_parents
+        ast.fix_missing_locations(fn)
+        set_parents(fn)
+    return n
+
+
 def unroll_literal_loops(fn, consts=None):
     """View transformation: a ``for`` over a literal table of constants whose body has no break/continue (after the
     guard-continue normal form) is replaced by one copy of the body per element, loop variables substituted and
